@@ -418,7 +418,7 @@ def run(ctx):
         values = is_psd_cell(case["cell"])
         pred = bool(applicable and what is None)
         try:
-            ls, idxs = case_lits(case, res, values, pred, tol)
+            ls, idxs = case_lits(case, res, values, pred, tol, member_cap=6 if ctx.quick else 4)
         except Exception as ex:  # noqa  (an output the encoder cannot represent is itself a disagreement)
             ctx.violation({"kind": "unencodable-output", "case": slim(case, res), "error": repr(ex)[:300]}, no_input=True)
             continue
